@@ -1106,19 +1106,28 @@ class Executor(object):
         if newf is not None:
             outs = []
             for (s, tag, v) in self.call_function(newf[0], [cls] + list(args), kwargs, st, fr, new_obj=obj):
-                outs.append((s, tag, obj if tag == "ok" else v))
+                # python semantics: what __new__ returns IS the result of the call; __init__ runs on it only when it is an
+                # instance of the class (an existing object handed back instead of a new one is therefore visible)
+                outs.append((s, tag, (v if isinstance(v, VObj) else obj) if tag == "ok" else v))
         res = []
         for (s, tag, v) in outs:
             if tag != "ok":
                 res.append((s, tag, v))
                 continue
+            if v is not obj:
+                if not self.is_subkind(v.kind, ci.name):
+                    res.append((s, "ok", v))
+                    continue
+                obj_ = v
+            else:
+                obj_ = obj
             init = self.find_method(ci.name, "__init__")
             if init is None:
-                for (s2, tag2, v2) in self.models.init_object(self, s, fr, obj, args, kwargs):
-                    res.append((s2, tag2, obj if tag2 == "ok" else v2))
+                for (s2, tag2, v2) in self.models.init_object(self, s, fr, obj_, args, kwargs):
+                    res.append((s2, tag2, obj_ if tag2 == "ok" else v2))
                 continue
-            for (s2, tag2, v2) in self.call_function(init[0], [obj] + list(args), kwargs, s, fr):
-                res.append((s2, tag2, obj if tag2 == "ok" else v2))
+            for (s2, tag2, v2) in self.call_function(init[0], [obj_] + list(args), kwargs, s, fr):
+                res.append((s2, tag2, obj_ if tag2 == "ok" else v2))
         return res
 
     def find_method(self, kind, name):
